@@ -6,7 +6,7 @@ LIB = "bindgen/lib.rs"
 UNIT = {
     "name": "gen_errors",
     "env": [os.path.join(ENV, "gen_errors_env.rs")],
-    "declared_trusted": {r"external_body": 18},
+    "declared_trusted": {r"external_body": 19},
     "items": [
         # "a missing path, a directory or an unreadable file yields the corresponding specific error"
         {"kind": "fn", "file": LIB, "name": "check_input_header", "impl": r"^impl Bindings$", "impl_nth": 0, "ret": "r",
